@@ -135,6 +135,7 @@ func (router *Router) serve() {
 				waitTime = maxWaitTime
 			}
 
+			verifTrace("busy-locked", int64(waitTime))
 			time.AfterFunc(waitTime, router.sendMu.Unlock)
 
 		case *knxnet.RoutingLost:
